@@ -198,6 +198,7 @@ package bug
 //@ func (*LabelChangeOperation).Apply
 //@   props C10
 //@   nopanic
+//@   opt inv_core=l1-nodup,l1-sep,l1-prefix,l2-absent,l3-nodup,l3-sep,l4-nodup,l4-sep,l4-current,l4-seen,l4-stale
 //@   requires [objects]   op != nil && snapshot != nil && op.Author() != nil && (forall k int :: { snapshot.Actors[k] } 0 <= k && k < len(snapshot.Actors) ==> snapshot.Actors[k] != nil)
 //@   requires [valid-ids] len(snapshot.id) >= 50 && len(op.Id()) >= 14
 //@   requires [no-dup]    forall i int :: { snapshot.Labels[i] } forall j int :: { snapshot.Labels[j] } 0 <= i && i < j && j < len(snapshot.Labels) ==> snapshot.Labels[i] != snapshot.Labels[j]
